@@ -12,7 +12,7 @@ def run(ctx):
     # two transactions over two targets. Waypoints: the first transaction is validated (its commits under way) or committed,
     # the second has failed: one solver-chosen reachable state of the class, then every continuation of 12 steps
     cfg22 = dict(nt=2, nx=2, sync=False, rollback=False, faults=False, crash=False)
-    way = lambda a, b: {'pred': 'reach:w-' + a + b, 'depth': 20, 'seed': {'pred': 'reach:w-' + a + '-', 'depth': 18}}
+    way = lambda a, b: {'pred': 'reach:w-' + a + b, 'depth': 20, 'seed': {'pred': 'reach:w-' + a + '-', 'depth': 18}, 'variants': 1 if quick else 3}
     q22 = [('bad', 12, bad[:2], way(a, 'F')) for a in 'VC']
     if not quick:
         q22 += [('bad', 36, [b]) for b in bad]
